@@ -132,7 +132,7 @@ func hostAttrs(answer int64) map[string]tengo.Object {
 }
 
 func moduleMap(p *payload) *tengo.ModuleMap {
-	mm := stdlib.GetModuleMap("math", "text", "enum")
+	mm := stdlib.GetModuleMap("math", "text", "enum", "rand")
 	mm.AddBuiltinModule(bridge.HostModName, hostAttrs(hostAnswer))
 	for _, name := range sortedKeys(p.Modules) {
 		mm.AddSourceModule(name, []byte(p.Modules[name]))
